@@ -235,9 +235,27 @@ type c18Str struct {
 	V       c18V   `json:"v"`
 	Form    int    `json:"form"` // 1: M  2: M.m  3: M.m.p  4: M.m.p-build  5: M.m.p-build-edition
 	Edition string `json:"edition"`
+	// Pad: minimum width of each component, filled with leading zeros (build numbers are published zero-padded: 7.2.0-0100);
+	// the component denotes the same decimal number
+	Pad [4]int `json:"pad,omitempty"`
 }
 
 func (s c18Str) format() string {
+	if s.Pad != [4]int{} {
+		p := func(i int) string { return fmt.Sprintf("%0*d", s.Pad[i], s.V[i]) }
+		switch s.Form {
+		case 1:
+			return p(0)
+		case 2:
+			return p(0) + "." + p(1)
+		case 3:
+			return p(0) + "." + p(1) + "." + p(2)
+		case 4:
+			return p(0) + "." + p(1) + "." + p(2) + "-" + p(3)
+		default:
+			return p(0) + "." + p(1) + "." + p(2) + "-" + p(3) + "-" + s.Edition
+		}
+	}
 	switch s.Form {
 	case 1:
 		return fmt.Sprintf("%d", s.V[0])
@@ -279,10 +297,24 @@ func TestC18_ParseRoundTrip(t *testing.T) {
 	ed := rapid.OneOf(rapid.SampledFrom([]string{"enterprise", "community", "", "ee", "x-y"}), rapid.StringMatching(`[a-zA-Z0-9_-]{0,12}`))
 	rapid.Check(t, func(rt *rapid.T) {
 		s := c18Str{V: c18GenV().Draw(rt, "v"), Form: rapid.IntRange(1, 5).Draw(rt, "form"), Edition: ed.Draw(rt, "ed")}
+		labs := []string{fmt.Sprintf("str_form%d", s.Form)}
+		if rapid.IntRange(0, 2).Draw(rt, "padded") == 0 {
+			for i := range s.Pad {
+				s.Pad[i] = rapid.SampledFrom([]int{0, 0, 2, 4, 5}).Draw(rt, "pad")
+			}
+			for i := 0; i < 4; i++ {
+				if s.V[i] < 0 {
+					s.Pad = [4]int{} // (negative components are formatted as they are)
+				}
+			}
+			if s.Pad != [4]int{} {
+				labs = append(labs, "zero_padded_components")
+			}
+		}
 		if d := c18ExecStr(s); d != "" {
 			violation(rt, "C18", "c18str", s, "%s", d)
 		}
-		record("C18", s, s.Form >= 4 && s.V[3] != 0, fmt.Sprintf("str_form%d", s.Form))
+		record("C18", s, s.Form >= 4 && s.V[3] != 0, labs...)
 	})
 }
 
